@@ -499,6 +499,63 @@ def rule_pb_pair(ctx):
     return r
 
 
+def rule_pb_setitem_clear(ctx):
+    r = RuleResult('R-pb-setitem-clear', 'the pullback of an in-place write y[sl] = x clears the adjoint of the overwritten entries '
+                                         '(ybar[sl] = 0) on every returning path - whatever the kind of x: the old contents of y[sl] no '
+                                         'longer influence the result, so their adjoint must not flow back to whoever produced them')
+    from .rules_api import _paths
+    m = ctx.model
+    fi = m.lookup_method('UTPM', 'pb___setitem__')
+    if fi is None:
+        r.unknown('UTPM.pb___setitem__', 'vanished')
+        return r
+    vp = fi.value_params()
+    if len(vp) < 3 or 'out' not in fi.params:
+        r.unknown(fi.site(), 'signature (y, sl, x, out) not recognised')
+        return r
+    sl = vp[1]
+    # the buffer adjoint: first element unpacked from out / out[0]
+    ybar = None
+    for st in walk_no_nested(fi.node):
+        if isinstance(st, ast.Assign) and isinstance(st.value, ast.Name) and st.value.id == 'out' and isinstance(st.targets[0], (ast.Tuple, ast.List)) \
+                and st.targets[0].elts and isinstance(st.targets[0].elts[0], ast.Name):
+            ybar = st.targets[0].elts[0].id
+        if isinstance(st, ast.Assign) and norm(st.value) == 'out[0]' and isinstance(st.targets[0], ast.Name):
+            ybar = st.targets[0].id
+    if ybar is None:
+        r.unknown(fi.site(), 'buffer adjoint (first element of out) not found')
+        return r
+
+    def clears(st):
+        if not isinstance(st, ast.Assign) or not (isinstance(st.value, ast.Constant) and st.value.value == 0 and st.value.value is not False):
+            return False
+        t = st.targets[0]
+        # ybar[sl] = 0 | ybar[sl].data[...] = 0 | ybar.data[(slice(None), slice(None)) + sl] = 0
+        for n in ast.walk(t):
+            if isinstance(n, ast.Subscript) and isinstance(n.value, ast.Name) and n.value.id == ybar and norm(n.slice) == sl:
+                return True
+        return False
+
+    n_paths = 0
+    for path in _paths(fi.node.body):
+        stmts = [s_ for s_ in path if not isinstance(s_, tuple)]
+        if stmts and isinstance(stmts[-1], ast.Raise):
+            continue
+        n_paths += 1
+        if any(clears(s_) for s_ in stmts):
+            r.ok(construct='path%d' % n_paths, nontrivial=True, sample='pb___setitem__ path %d clears `%s[%s]`' % (n_paths, ybar, sl))
+        else:
+            last = stmts[-1] if stmts else fi.node
+            conds = [norm(t[1]) for t in path if isinstance(t, tuple)]
+            r.bad(Finding('R-pb-setitem-clear', _f(fi), 'path:' + '|'.join(conds)[:80],
+                          'pb___setitem__ returns without clearing the adjoint of the overwritten entries (`%s[%s] = 0`) on the path through %s'
+                          % (ybar, sl, conds or ['the function body']), fi.file, getattr(last, 'lineno', fi.lineno)))
+    if n_paths == 0:
+        r.unknown(fi.site(), 'no returning path')
+    r.floor = 1
+    return r
+
+
 # ------------------------------------------------------------ sweep rules
 def _top_loops(fi):
     return [st for st in fi.node.body if isinstance(st, ast.For)]
@@ -673,6 +730,36 @@ def rule_sweep_balance(ctx):
                             fwd.append(n)
                 if isinstance(n, ast.Call) and isinstance(n.func, ast.Attribute) and n.func.attr in ('pushforward', 'redo_setitem', 'roll_forward'):
                     fwd.append(n)
+    # the roll-forward must redo the writes in recording order: a slot written twice has to end with the later write
+    rev_seen = False
+    collected = {}      # local list name -> direction in which the reverse/forward loops fill it
+    for st in cp.node.body:
+        if isinstance(st, ast.For):
+            si = seq_iteration(st)
+            d_ = si[1] if si is not None and si[0] == 'self.functionList' else None
+            for c in ast.walk(st):
+                if isinstance(c, ast.Call) and isinstance(c.func, ast.Attribute) and c.func.attr in ('append', 'insert') and isinstance(c.func.value, ast.Name):
+                    how = d_
+                    if c.func.attr == 'insert' and c.args and norm(c.args[0]) == '0' and d_ is not None:
+                        how = 'fwd' if d_ == 'rev' else 'rev'
+                    collected[c.func.value.id] = how
+        if isinstance(st, ast.For) and _calls_in(st, 'pullback'):
+            rev_seen = True
+            continue
+        if rev_seen and isinstance(st, ast.For) and any(n in fwd for n in ast.walk(st)):
+            si = seq_iteration(st)
+            order = None
+            if si is not None and si[0] == 'self.functionList':
+                order = si[1]
+            elif si is not None and si[0] in collected and collected[si[0]] is not None:
+                order = collected[si[0]] if si[1] == 'fwd' else ('fwd' if collected[si[0]] == 'rev' else 'rev')
+            if order == 'fwd':
+                r.ok(construct='roll-forward-order', nontrivial=True, sample='roll-forward loop `for %s in %s` redoes the writes in recording order' % (norm(st.target), norm(st.iter)))
+            elif order == 'rev':
+                r.bad(Finding('R-sweep-balance', _f(cp), 'roll-forward-order', 'the roll-forward loop `for %s in %s` redoes the in-place writes in reverse recording '
+                                                                               'order: a slot written twice ends with the earlier value' % (norm(st.target), norm(st.iter)), cp.file, st.lineno))
+            else:
+                r.unknown(cp.site(st), 'order of the roll-forward loop over `%s` not determined' % norm(st.iter))
     if not back:
         r.ok(construct='no-rollback', sample='Function.pullback contains no roll-back store into node.x[...]')
     for st in back:
@@ -683,7 +770,7 @@ def rule_sweep_balance(ctx):
             r.bad(Finding('R-sweep-balance', _f(fp), norm(st),
                           'roll-back `%s` has no roll-forward after the reverse loop of CGraph.pullback: buffers stay '
                           'at their pre-write contents after a sweep' % norm(st), fp.file, st.lineno))
-    r.floor = 1
+    r.floor = 2
     return r
 
 
